@@ -42,6 +42,11 @@ SESS = None
 XLOG = []          # implementation-only observations for the property oracles: [event, context]; not compared with the model
 OUTBUF = [None]
 _QUIDS = {}
+def _uid(obj):
+    """small stable number of an object (the object is kept, so that a number is never reused for another object)"""
+    k = id(obj)
+    if k not in _QUIDS: _QUIDS[k] = (len(_QUIDS), obj)
+    return _QUIDS[k][0]
 def _ctx():
     """context of an observation: nesting depth, identity of the active level, the screen stack, stdout position"""
     ctx = {}
@@ -51,12 +56,14 @@ def _ctx():
         if qs is not None:
             ctx["depth"] = len(qs)
             ctx["run_loop"] = bool(getattr(loop, "_run_loop", True))
-            ctx["lvl"] = _QUIDS.setdefault(id(loop._active_queue), len(_QUIDS))
-            ctx["levels"] = [_QUIDS.setdefault(id(q), len(_QUIDS)) for q in qs]
+            ctx["lvl"] = _uid(loop._active_queue)
+            ctx["levels"] = [_uid(q) for q in qs]
         else:
             ctx["depth"] = len(getattr(loop, "_event_loops", []))
         dump = App.get_scheduler().dump_stack().split("\n")[2:-2]
         ctx["stack"] = [l[len("ScreenData("):-1].split(",") for l in reversed(dump)]      # bottom ... top: [name, args, modal]
+        ents = getattr(getattr(App.get_scheduler(), "_screen_stack", None), "_screens", None)
+        if ents is not None: ctx["top"] = _uid(ents[-1]) if ents else None           # identity of the top stack entry (the entry object, not the screen)
     except Exception as e:      # pragma: no cover
         ctx["ctx_error"] = repr(e)
     if OUTBUF[0] is not None:
